@@ -49,12 +49,17 @@ type World struct {
 	envSteps   int
 	itoaSeen   []*Term
 	autoO2     string
+	httpReplies []httpReply
+	ginParams  map[string]*Term
+	lenOf      map[int]*Term
+	ginWildcards map[string]bool
+	nbind      int
 	marshalledAny map[int]Value
 	lastObs    *Term // tick of this coroutine's previous store transaction
 }
 
 func newWorld(ex *Exec) *World {
-	w := &World{ex: ex, marshalledAny: map[int]Value{}, marshalled: map[int]*MapObj{}, encSeen: map[int]bool{}, funcs: map[string]bool{}, entered: map[string]int{},
+	w := &World{ex: ex, lenOf: map[int]*Term{}, marshalledAny: map[int]Value{}, marshalled: map[int]*MapObj{}, encSeen: map[int]bool{}, funcs: map[string]bool{}, entered: map[string]int{},
 		slots: map[string]int{"promises": 3, "callbacks": 3, "schedules": 2, "locks": 2, "tasks": 4}}
 	w.now = ex.tt.BV(0, 64)
 	return w
